@@ -1,6 +1,7 @@
 import Tx3Model.WireDec
 import Tx3Proofs.C11
 import Tx3Proofs.Lemmas.Tir
+import Tx3Proofs.Lemmas.CborRoundtrip
 
 /-!
 # C11 — the wire format loses nothing: a reader inverts the encoder on every well-shaped tree
@@ -516,5 +517,45 @@ theorem C11_tx_roundtrip (t : Tx) (n : Nat) (h : TxOK t n)
         | none => simp [optional, unOptional, struct, unStruct, h1, h2]
         | some s => simp [optional, unOptional, struct, unStruct, h1, h2, hsigners s rfl]
     · rfl
+
+end Tx3.Wire
+
+/-! ## Down to bytes -/
+
+namespace Tx3.Wire
+open Tx3 Tx3.Cbor
+
+/-- **C11 (round trip), bytes.** `from_bytes (to_bytes t) = t`: the RFC 8949 reader inverts the writer on what
+the encoder writes (`Cbor.decode_encode`), and the typed reader inverts the typed writer (`C11_tx_roundtrip`).
+Hypotheses, all executable and evaluated by the driver on every generated transaction: the item written is
+within what CBOR heads can carry (`wfb`: lengths, tags and integers below 2^64 - i128 values beyond that are
+written as bignums by `int128`), the expression slots are well shaped and not larger than the reader's fuel. -/
+theorem C11_wire_roundtrip (t : Tx) (hwf : (tx t).wfb = true)
+    (hok : TxOK t ((toBytes t).length + 1))
+    (ha : ∀ e ∈ t.adhoc, ∃ name keys cs, e = Expr.node (.adhoc name keys) cs) :
+    fromBytes (toBytes t) = some t := by
+  unfold fromBytes toBytes
+  rw [decode_encode_of_wfb _ hwf]
+  exact C11_tx_roundtrip t _ hok ha
+
+theorem TxOK_of_bytesHyps (t : Tx) (h : bytesHyps t = true) : (tx t).wfb = true ∧ TxOK t ((toBytes t).length + 1) := by
+  unfold bytesHyps at h
+  simp only [Bool.and_eq_true, List.all_eq_true, decide_eq_true_eq] at h
+  exact ⟨h.1, fun e he => h.2 e he⟩
+
+theorem C11_wire_roundtrip' (t : Tx) (h : bytesHyps t = true)
+    (ha : ∀ e ∈ t.adhoc, ∃ name keys cs, e = Expr.node (.adhoc name keys) cs) :
+    fromBytes (toBytes t) = some t :=
+  C11_wire_roundtrip t (TxOK_of_bytesHyps t h).1 (TxOK_of_bytesHyps t h).2 ha
+
+/-- Injectivity down to bytes: two transactions meeting the hypotheses and written to the same bytes are equal. -/
+theorem C11_bytes_injective (a b : Tx) (ha : bytesHyps a = true) (hb : bytesHyps b = true)
+    (ha' : ∀ e ∈ a.adhoc, ∃ name keys cs, e = Expr.node (.adhoc name keys) cs)
+    (hb' : ∀ e ∈ b.adhoc, ∃ name keys cs, e = Expr.node (.adhoc name keys) cs)
+    (h : toBytes a = toBytes b) : a = b := by
+  have h1 := C11_wire_roundtrip' a ha ha'
+  have h2 := C11_wire_roundtrip' b hb hb'
+  rw [h] at h1
+  exact Option.some.inj (h1.symm.trans h2)
 
 end Tx3.Wire
